@@ -48,6 +48,10 @@ type Cache struct {
 	DNSAutoAllocate bool
 	// AllowAny indicates if the proxy should allow all outbound traffic or only known registries
 	AllowAny bool
+	// CatchAllCluster is the cluster the catch-all virtual host of this proxy routes unknown traffic to
+	// (PassthroughCluster, the cluster of the Sidecar's egressProxy, the ALLOW_ANY_DYNAMIC_DNS forward proxy
+	// cluster; empty when there is no catch-all route to a cluster). AllowAny alone does not determine it.
+	CatchAllCluster string
 	// IPMode is the IP family support of the proxy: the service addresses that become virtual host
 	// domains are filtered by it (Service.GetAllAddressesForProxy)
 	IPMode model.IPMode
@@ -141,6 +145,8 @@ func (r *Cache) Key() any {
 	h.WriteString(strconv.FormatBool(r.DNSAutoAllocate))
 	h.Write(Separator)
 	h.WriteString(strconv.FormatBool(r.AllowAny))
+	h.Write(Separator)
+	h.WriteString(r.CatchAllCluster)
 	h.Write(Separator)
 	h.WriteString(strconv.Itoa(int(r.IPMode)))
 	h.Write(Separator)
